@@ -341,6 +341,47 @@ theorem triangulate_some (pts : Array (V2 K)) (h3 : 3 ≤ pts.size) (hU : UpdAll
     rw [if_pos (hF _ _ _ ho (hI.lt _ hp) hi_n (hI.lt _ hn))]
     exact ⟨_, rfl⟩
 
+/-- the initialisation loop returns `Some` only if `update_vertex` succeeded on every vertex -/
+theorem initInfos_all_ok (pts : Array (V2 K)) (k : Nat) (acc info : Array (VInfo K))
+    (hacc : acc.size + k = pts.size) (h : initInfos pts k acc = some info) :
+    ∀ j, acc.size ≤ j → j < pts.size → (updateVertex pts j (initVInfo pts.size j)).2 = true := by
+  induction k generalizing acc with
+  | zero => intro j h1 h2; omega
+  | succ k ih =>
+    have hi : pts.size - (k + 1) = acc.size := by omega
+    unfold initInfos at h
+    simp only [hi] at h
+    by_cases hok : (updateVertex pts acc.size (initVInfo pts.size acc.size)).2 = true
+    · rw [if_pos hok] at h
+      intro j h1 h2
+      by_cases hj : j = acc.size
+      · subst hj; exact hok
+      · exact ih _ (by simp; omega) h j (by simp; omega) h2
+    · rw [if_neg hok] at h; cases h
+
+/-- **the NaN guard — every scalar type, `f64` included** (no arithmetic law is used).  If the pointiness
+`normalize(prev - p) · normalize(next - p)` of some input corner is NaN — which is what IEEE arithmetic produces for a
+repeated consecutive vertex (`0/0`) — `update_vertex` reports failure and `triangulate_ear_clipping` returns `None`.
+Repeated consecutive vertices are therefore outside the domain of the exact-arithmetic theorems (where `x/0 = 0`) but
+inside this one, and the correspondence runs them (`spoil` family 0). -/
+theorem triangulate_none_of_nan (pts : Array (V2 K)) (j : Nat) (hj : j < pts.size)
+    (hnan : isNaN ((normalize ((pt pts (initVInfo (K := K) pts.size j).prev).sub (pt pts j))).dot
+      (normalize ((pt pts (initVInfo (K := K) pts.size j).next).sub (pt pts j)))) = true) :
+    triangulateEarClipping pts = none := by
+  have hbad : (updateVertex pts j (initVInfo pts.size j)).2 = false := by
+    unfold updateVertex
+    simp only [hnan, if_true]
+  unfold triangulateEarClipping
+  simp only
+  split_ifs with hn
+  · rfl
+  · cases hinit : initInfos pts pts.size #[] with
+    | none => rfl
+    | some info =>
+      have := initInfos_all_ok pts pts.size #[] info (by simp) hinit j (by simp) hj
+      rw [hbad] at this
+      cases this
+
 end generic
 
 /-! ## strictly convex position -/
